@@ -268,8 +268,18 @@ func catalogue(shapes []dsl.Shape) (res []*desc, skipped int) {
 // ---- (a) fault cases of DslConc.tla ------------------------------------------------------
 
 type tlcTok struct {
-	K string `json:"k"`
-	N int    `json:"n"`
+	K string   `json:"k"`
+	N int      `json:"n"`
+	R []string `json:"r"` // how each rune of a string is written: p plain, e escape sequence, b escaped backslash
+}
+
+func (t tlcTok) escaped() bool {
+	for _, k := range t.R {
+		if k != "p" {
+			return true
+		}
+	}
+	return false
 }
 
 type faultCase struct {
@@ -325,6 +335,27 @@ func realise(fc *faultCase, cat []*desc, rng *rand.Rand, nreal int) (texts []str
 		switch {
 		case at == 0: // no parse error decided: the description as it is
 			add(d, d.text, "unchanged")
+		case fc.Fat.Str > 0 && fc.Toks[fc.Fat.Str-1].escaped():
+			// a string with escape sequences: the token is written exactly as the model says (one rune per
+			// element, escapes where the model has them) into a description over font "e", which maps the
+			// backslash and the quote; rune j is replaced by a rune the font does not map
+			tk, j := fc.Toks[fc.Fat.Str-1], fc.Fat.Rune
+			after := n + 1 - at
+			var hosts []*desc
+			for _, x := range cat {
+				if x.font == "e" && len(x.strs) > 0 {
+					hosts = append(hosts, x)
+				}
+			}
+			if len(hosts) == 0 {
+				continue
+			}
+			d = hosts[rng.Intn(len(hosts))]
+			si := d.strs[rng.Intn(len(d.strs))]
+			lit := dsl.WriteString(tk.R, j-1, k)
+			cut := d.upTo(si + after - 1)
+			t := d.toks[si]
+			add(d, cut[:t.Start]+lit+cut[t.End:], fmt.Sprintf("string %s with unmapped rune %d of %d, %d items after", lit, j, tk.N, after))
 		case fc.Fat.Str > 0: // unmapped rune j of a string with nr runes
 			nr, j := fc.Toks[fc.Fat.Str-1].N, fc.Fat.Rune
 			after := n + 1 - at
@@ -421,6 +452,7 @@ func sweep(shapesPath, outPath string) {
 	procs := envInts("C19_PROCS", []int{1, 2, 4, 16})
 	reps := envInt("C19_REPS", 3)
 	nrand := envInt("C19_RANDOM", 500)
+	nesc := envInt("C19_ESCSTR", 1) // string tokens per description that are replaced by escape-dense strings
 	si, sn := shard()
 	var cases []*Case
 	id := 0
@@ -450,6 +482,21 @@ func sweep(shapesPath, outPath string) {
 				if t, ok := dsl.Mutate(d.text, d.toks, kind, i, 0); ok && !seen[d.font+t] {
 					seen[d.font+t] = true
 					add(d.font, t, fmt.Sprintf("description %d: %s at token %d", di, kind, i))
+				}
+			}
+		}
+		// escape-dense strings: 0..3 escape sequences before and after a rune that is not mapped, for every
+		// escape the lexer accepts, in place of the first two strings of the description
+		for k, si := range d.strs {
+			if k >= nesc {
+				break
+			}
+			t := d.toks[si]
+			for _, lit := range dsl.EscapeStrings() {
+				x := d.text[:t.Start] + lit + d.text[t.End:]
+				if !seen[d.font+x] {
+					seen[d.font+x] = true
+					add(d.font, x, fmt.Sprintf("description %d: string token %d replaced by %s", di, si, lit))
 				}
 			}
 		}
